@@ -161,5 +161,4 @@ Print Assumptions C07_nonvacuous.
 Print Assumptions C07_epa_exit_separates.
 Print Assumptions C07_epa_success_upper.
 Print Assumptions C07_epa_initial_polytope_outward.
-Print Assumptions FloatEx.C07_epa_model_nonvacuous.
 Print Assumptions C07_epa_exit_nonvacuous.
